@@ -60,6 +60,8 @@ template <typename T> int go(int argc, char** argv) {
     long calls = 0;
     if (!strcmp(mode, "run")) { err = vm.run(inputs); calls = 1;
       while (err == util::ForthError::none && !vm.is_done() && calls < 10000) { err = vm.resume(); calls++; } }
+    else if (!strcmp(mode, "call")) { err = vm.run(inputs); calls = 1;      // between a pause and its resume the user calls a word (index 0) that leaves everything as it was
+      while (err == util::ForthError::none && !vm.is_done() && calls < 10000) { err = vm.call((int64_t)0); if (err != util::ForthError::none) break; err = vm.resume(); calls++; } }
     else { vm.begin(inputs); while (!vm.is_done() && vm.current_error_ == util::ForthError::none && calls < 10000) { err = vm.step(); calls++; } err = vm.current_error_; }
     printf("{\"err\": %d, \"calls\": %ld, \"done\": %d, ", (int)err, calls, (int)vm.is_done()); pv("stack", vm.stack()); printf(", "); pv("variables", vm.variables_);
     printf(", \"inpos\": ["); for (size_t i = 0; i < vm.current_inputs_.size(); i++) printf("%s%lld", i ? ", " : "", (long long)vm.current_inputs_[i].get()->pos());
@@ -124,11 +126,14 @@ using namespace awkward;
 // harness loops around the real step() / resume(): call them the way a user does, until the program is done or an error is set
 extern "C" void vf_steps32(ForthMachineOf<int32_t, int32_t>* vm, int64_t n) { for (int64_t k = 0; k < n; k++) { if (vm->is_done() || vm->current_error_ != util::ForthError::none) break; vm->step(); } }
 extern "C" void vf_steps64(ForthMachineOf<int64_t, int32_t>* vm, int64_t n) { for (int64_t k = 0; k < n; k++) { if (vm->is_done() || vm->current_error_ != util::ForthError::none) break; vm->step(); } }
+extern "C" void vf_calls32(ForthMachineOf<int32_t, int32_t>* vm, int64_t n) { for (int64_t k = 0; k < n; k++) { if (vm->is_done() || vm->current_error_ != util::ForthError::none) break; if (k > 0) { vm->call((int64_t)0); if (vm->current_error_ != util::ForthError::none) break; } vm->resume(); } }
+extern "C" void vf_calls64(ForthMachineOf<int64_t, int32_t>* vm, int64_t n) { for (int64_t k = 0; k < n; k++) { if (vm->is_done() || vm->current_error_ != util::ForthError::none) break; if (k > 0) { vm->call((int64_t)0); if (vm->current_error_ != util::ForthError::none) break; } vm->resume(); } }
 extern "C" void vf_resumes32(ForthMachineOf<int32_t, int32_t>* vm, int64_t n) { for (int64_t k = 0; k < n; k++) { if (vm->is_done() || vm->current_error_ != util::ForthError::none) break; vm->resume(); } }
 extern "C" void vf_resumes64(ForthMachineOf<int64_t, int32_t>* vm, int64_t n) { for (int64_t k = 0; k < n; k++) { if (vm->is_done() || vm->current_error_ != util::ForthError::none) break; vm->resume(); } }
 '''
 
 MAXDEPTH, RECDEPTH, OUTCAP = 8, 6, 12
+CALLED_WORD = ': vfnop 1 drop ; '
 
 
 def wrap_module():
@@ -248,7 +253,7 @@ def run_mode(T, src, mode, stack_cells, inbytes, nsteps, pre=()):
         raise Unsupported('the repository compiler rejects the template %r: %s' % (src, dump))
     m, this, off = build_machine(T, dump, stack_cells, inbytes)
     m.assume(*pre)          # before the run: loop trip counts are bounded by the precondition, not by the unwinding bound
-    fn = {'run': 'vf_resumes%d', 'step': 'vf_steps%d'}[mode] % T
+    fn = {'run': 'vf_resumes%d', 'step': 'vf_steps%d', 'call': 'vf_calls%d'}[mode] % T
     m.call(fn, [this, z3.BitVecVal(nsteps, 64)])
     fs = final_state(m, off, T, dump['nvars'], dump['ninputs'], dump['noutputs'])
     return m, fs, dump
@@ -262,6 +267,8 @@ def _t(cond, W):
 class Tmpl:
     """src: program text run on the initial stack `args` (symbolic cells); pre(args) -> assumptions; expect(args, W) -> list of
     (guard, [final stack cells]) cases (guards cover the precondition) ; paused: the same program with pause words inserted"""
+    calls = True
+
     def __init__(self, name, src, nargs, pre, expect, paused=(), steps=90, vars_expect=None, halt_cases=None, nbytes=0, inpos=None, outs=None):
         self.name, self.src, self.nargs, self.pre, self.expect, self.paused, self.steps, self.vars_expect, self.halt_cases, self.nbytes, self.inpos, self.outs = name, src, nargs, pre, expect, paused, steps, vars_expect, halt_cases, nbytes, inpos, outs
 
@@ -451,6 +458,8 @@ def h_prog(name, T, ci):
     g, cells, errname = cases[ci]
     pre = tm.pre(args) + [g]
     runs = [('run', tm.src, 'run', 12)] + [('step', tm.src, 'step', tm.steps)] + [('paused: ' + p, p, 'run', 24) for p in tm.paused]
+    # ... and with a call() of a word that changes nothing between every pause and its resume (segments: run / call / resume / call / ...)
+    runs += [('paused, a word called before every resume: ' + p, CALLED_WORD + p, 'call', 24) for p in tm.paused if tm.calls]
     ctxs = []
     for label, src, mode, n in runs:
         m, fs, dump = run_mode(T, src, mode, args, inb, n, pre)
